@@ -6,7 +6,6 @@ import (
 	"bufio"
 	"fmt"
 	"log"
-	"os"
 	"time"
 )
 
@@ -25,7 +24,7 @@ type VerifSnap struct{ S *Snapshotter }
 // VerifNewSyncSnapshotter is NewSnapshotter without `go teeStream()` / `go stream()`.
 func VerifNewSyncSnapshotter(path string, minCompactSize int, rejoinAfterLeave bool,
 	logger *log.Logger, clock *LamportClock) (*VerifSnap, error) {
-	fh, err := os.OpenFile(path, os.O_RDWR|os.O_APPEND|os.O_CREATE, 0644)
+	fh, err := verifSnapOpen(path)
 	if err != nil {
 		return nil, fmt.Errorf("failed to open snapshot: %v", err)
 	}
